@@ -196,12 +196,22 @@ fn noise(rng: &mut Lcg) -> f64 { (0..6).map(|_| rng.below(1 << 20) as f64 / (1 <
 /// P3 (relational observation): Levenberg-Marquardt on exponential and logistic curve fits never returns parameters
 /// with a larger residual sum of squares than the start, and reports a p x p covariance.
 pub fn record(seed: u64, nev: usize, out: &str) {
-    let mut rng = Lcg::new(seed);
+    let mut main_rng = Lcg::new(seed);
     let mut t = TraceOut::new(out);
-    for e in 0..nev {
+    // after the random events: budget sweeps. Six non-linear problems (exponential / logistic, mildly poor start so that steps are
+    // accepted), each run with every step budget 1..8 - the budget then runs out on an accepted step for several of them, and
+    // whatever the budget the covariance must be the one AT THE RETURNED POINT and the RSS must not exceed the start's
+    // (six more from the fixed far-off starts that force rejected steps: a proposal accepted after a rejection is still measured
+    // against the current point)
+    let sweeps = 12 * 8;
+    for e in 0..(nev + sweeps) {
+        let sweep = e >= nev;
+        let mut sub = Lcg::new(7000 + (e.saturating_sub(nev) / 8) as u64);
+        let rng: &mut Lcg = if sweep { &mut sub } else { &mut main_rng };
         let n = rng.range(5, 60) as usize;
-        let kind = ["exponential", "logistic", "linear-short-window", "logistic-growth"][e % 4];
-        let x: Vec<f64> = (0..n).map(|i| match kind { "linear-short-window" => 0.05 + 0.3 * i as f64 / n as f64, "logistic-growth" => 20.0 * i as f64 / n as f64, _ => -2.0 + 4.0 * i as f64 / n as f64 }).collect();
+        let kind = if sweep { ["exponential", "logistic"][((e - nev) / 16) % 2] } else { ["exponential", "logistic", "linear-short-window", "logistic-growth"][e % 4] };
+        let one_sided = sweep && (e - nev) / 8 >= 6;      // abscissae 0..5: the far-off starts then overshoot by orders of magnitude
+        let x: Vec<f64> = (0..n).map(|i| match kind { _ if one_sided => 5.0 * i as f64 / n as f64, "linear-short-window" => 0.05 + 0.3 * i as f64 / n as f64, "logistic-growth" => 20.0 * i as f64 / n as f64, _ => -2.0 + 4.0 * i as f64 / n as f64 }).collect();
         let truth = if kind == "logistic-growth" { [rng.range(30, 60) as f64 / 10.0, rng.range(10, 20) as f64 / 10.0, rng.range(80, 120) as f64 / 10.0] }
                     else { [rng.range(-15, 15) as f64 / 10.0, rng.range(2, 15) as f64 / 10.0, rng.range(-10, 10) as f64 / 10.0] };
         let ns = [0.0, 0.01, 0.2][rng.below(3) as usize];
@@ -211,20 +221,23 @@ pub fn record(seed: u64, nev: usize, out: &str) {
         let p = match kind { "exponential" => 2, "logistic" | "logistic-growth" => 3, _ => 1 };
         // the response in other units (amplitude parameter, noise and start scaled alike): descent, finiteness and the covariance
         // certificate are unit-free, so no absolute threshold may enter the gain ratio or the stopping tests
-        let ysc = [1.0, 1.0, 2f64.powi(-30), 2f64.powi(25)][rng.below(4) as usize];
+        let ysc = if sweep { rng.below(4); 1.0 } else { [1.0, 1.0, 2f64.powi(-30), 2f64.powi(25)][rng.below(4) as usize] };
         let mut truth = truth; truth[0] *= ysc;
-        let y: Vec<f64> = x.iter().map(|a| model(&truth, *a) + ns * ysc * noise(&mut rng)).collect();
+        // the far-off sweeps use fixed textbook problems (growth 2 e^(0.8 x) and a logistic step at x = 2.5 on the window 0..5)
+        if one_sided { truth = if kind == "exponential" { [2.0, 0.8, 0.0] } else { [3.0, 2.0, -5.0] }; }
+        let y: Vec<f64> = x.iter().map(|a| model(&truth, *a) + ns * ysc * noise(&mut *rng)).collect();
         // poor starts: perturbed truth, or a fixed far-off point (wrong sign of the rate, wrong scale) that forces rejected steps
         let start: Vec<f64> = if kind == "logistic-growth" {
             // tiny amplitude and flat slope: the first weakly damped steps overshoot
             vec![[0.01, 0.05, 0.1][rng.below(3) as usize], [0.1, 0.05, 0.2][rng.below(3) as usize], rng.range(2, 9) as f64]
-        } else { match rng.below(4) {
+        } else { match if sweep { rng.below(4); if (e - nev) / 8 < 6 { 3 } else { ((e - nev) / 8) as u64 % 2 } } else { rng.below(4) } {
             0 => match kind { "exponential" => vec![5.0, -1.0], "logistic" => vec![1.0, 0.5, 0.0], _ => vec![40.0] },
             1 => match kind { "exponential" => vec![0.1, 3.0], "logistic" => vec![10.0, -2.0, 3.0], _ => vec![-7.0] },
             k => (0..p).map(|i| truth[i] + [1.5, -0.9, 2.0][i] * if k == 2 { 1.0 } else { 0.3 }).collect(),
         } };
         let mut start = start; start[0] *= ysc;
-        let budget = if kind == "logistic-growth" || (ysc != 1.0 && kind != "linear-short-window") { [1usize, 2, 3, 5, 100][rng.below(5) as usize] } else { 100 };
+        if one_sided { let h = ((e - nev) / 8) % 3; start = if kind == "exponential" { [[5.0, -1.0], [0.1, 3.0], [10.0, 1.5]][h].to_vec() } else { [[1.0, 0.5, 0.0], [10.0, 5.0, -20.0], [1.0, 10.0, -10.0]][h].to_vec() }; }
+        let budget = if sweep { 1 + (e - nev) % 8 } else if kind == "logistic-growth" || (ysc != 1.0 && kind != "linear-short-window") { [1usize, 2, 3, 5, 100][rng.below(5) as usize] } else { 100 };
         // the line fit is compared with the exact least-squares slope: run it with tight stopping tolerances
         // (the default 1e-6 legitimately stops about 2^-19 away)
         // (eps1 bounds the gradient norm |J^T r|, an absolute quantity in the units of the response: it is scaled with them)
